@@ -126,7 +126,11 @@ func Finalizing(ctx interface{}) error {
 
 		bjob, err := context.JobStore.GetJob(tracker.GetJobID(ethereum.BusyBroadcasting))
 		if err != nil {
-			return errors.Wrap(err, "failed to get job")
+			// The job store is local to this node (a witness that was restarted,
+			// became a witness later or lost its job store has no broadcast job
+			// for this tracker). That must not abort the tracker transition,
+			// which is consensus state: there is just nothing to do locally.
+			return nil
 		}
 
 		if !bjob.IsDone() || bjob.IsFailed() {
